@@ -44,7 +44,7 @@ def header_command(d):
                     break
                 k += 1
             c = " ".join(cmd)
-            c = re.sub(r"/tmp/wt2?/C\d\d", wt, c)
+            c = re.sub(r"/tmp/wt\d?/C\d\d", wt, c)
             c = re.sub(r";\s*echo .*$", "", c)
             return c
     return None
